@@ -255,11 +255,52 @@ def t17_fast(run, fx):
                  "marks inside the widened range are no longer sorted and split the runs they sit in" % why, "%s:%s" % (b.file, b.line))
 
 
+def t17_ya(run, fx):
+    rule = "T17-YA"
+    run.rule(rule, "the only recomposition of the Indic preprocessing is the documented one: recompose_bengali_ya_nukta rewrites exactly the pair "
+                   "U+09AF BENGALI LETTER YA, U+09BC BENGALI SIGN NUKTA to U+09DF; both tests are equalities with these two constants (no "
+                   "script-agnostic predicate), so no other character is ever removed from the text")
+    b = fx.body("scripts::indic::recompose_bengali_ya_nukta")
+    if b is None:
+        return run.anchor_missing(rule, "scripts::indic::recompose_bengali_ya_nukta")
+    import guards
+    prov = sym.Prov(b)
+
+    def cv(t):
+        t = sym.strip(t)
+        if t[0] != "c":
+            return None
+        v = t[1]
+        if isinstance(v, str) and len(v) == 1:
+            return ord(v)
+        if isinstance(v, int) and not isinstance(v, bool):
+            return v
+        import re
+        m = re.search(r"u\{([0-9a-fA-F]+)\}", str(t[3]) if len(t) > 3 else "")
+        return int(m.group(1), 16) if m else None
+    eqs = set()
+    for tb, fb_, op, x, y, sw in guards.branch_conditions(b, prov):
+        if op in ("Eq", "Ne"):
+            for z in (x, y):
+                k = cv(z)
+                if k is not None:
+                    eqs.add(k)
+    preds = [c for tb, fb_, c, sw in guards.bool_call_conditions(b, prov) if not (c[4] or c[1] or "").endswith(("::lt", "::le", "::gt", "::ge"))]
+    if eqs == {0x09AF, 0x09BC} and not preds:
+        run.ok(rule, "recompose_bengali_ya_nukta: tests == U+09AF and == U+09BC only")
+    else:
+        run.fail(rule, "ya-nukta-pair", "recompose_bengali_ya_nukta decides with %s%s instead of the two equalities with U+09AF and U+09BC: characters other "
+                 "than the Bengali nukta are deleted from the text" % (sorted(hex(k) for k in eqs), (" and the predicate(s) %s" % [(c[4] or c[1]).split("::")[-1] for c in preds]) if preds else ""),
+                 "%s:%s" % (b.file, b.line))
+
+
 def check(run, fx, tier, floors=True):
     if floors or fx.body("scripts::arabic::is_modifier_combining_mark") is not None:
         t17_mcm(run, fx)
     if floors or fx.body("scripts::indic::preprocess_indic") is not None:
         t17_ord(run, fx)
+    if floors or fx.body("scripts::indic::recompose_bengali_ya_nukta") is not None:
+        t17_ya(run, fx)
     if floors or fx.body("unicode::mcc::modified_combining_class") is not None:
         t17_fast(run, fx)
     r = t17_disp(run, fx)
